@@ -43,6 +43,8 @@ const (
 	workerASLimit   = 16 << 30 // address-space cap of a worker
 	workerMaxStack  = 256 << 20
 	cpuBudgetSecs   = 60
+	cpuSecsPerGiB   = 300
+	cpuAllocCapGiB  = 12
 	suspiciousAlloc = 1 << 30 // TotalAlloc delta per item that triggers exact per-site accounting
 )
 
@@ -62,6 +64,20 @@ type AllocSite struct {
 	Bytes int64  // size of the largest single object allocated at this site
 	Func  string // innermost non-runtime function
 	Stack string
+}
+
+// cpuBudget is the CPU time one entry-point call may consume: cpuBudgetSecs plus cpuSecsPerGiB for
+// every GiB the call has allocated so far, counted up to cpuAllocCapGiB. First-touch of fresh memory is
+// the one cost that was seen to vary by two orders of magnitude with the state of the machine (a single
+// legal 1.7 GB buffer: 0.1 s on an idle VM, up to 270 CPU-seconds on a loaded one, most of it accounted
+// as user time); everything else stayed far below the base budget under any load. The cap keeps a loop
+// that allocates garbage for ever detectable.
+func cpuBudget(allocated uint64) float64 {
+	gib := float64(allocated) / (1 << 30)
+	if gib > cpuAllocCapGiB {
+		gib = cpuAllocCapGiB
+	}
+	return cpuBudgetSecs + gib*cpuSecsPerGiB
 }
 
 func cpuSeconds() float64 {
@@ -141,6 +157,15 @@ func WorkerMain(args []string) {
 	}
 	// CPU watchdog: decided on consumed CPU time, not wall clock
 	var beginCPU atomic.Uint64 // math.Float64bits not needed: store centiseconds
+	var beginAlloc atomic.Uint64
+	wdSample := []metrics.Sample{{Name: "/gc/heap/allocs:bytes"}}
+	wdAlloc := func() uint64 { // the watchdog's own sample slice (metrics.Read is safe to call concurrently)
+		metrics.Read(wdSample)
+		if wdSample[0].Value.Kind() == metrics.KindUint64 {
+			return wdSample[0].Value.Uint64()
+		}
+		return 0
+	}
 	var curID atomic.Int64
 	var curEntry atomic.Value
 	curEntry.Store("")
@@ -148,7 +173,7 @@ func WorkerMain(args []string) {
 		for {
 			time.Sleep(500 * time.Millisecond)
 			start := float64(beginCPU.Load()) / 100
-			if start > 0 && cpuSeconds()-start > cpuBudgetSecs {
+			if start > 0 && cpuSeconds()-start > cpuBudget(wdAlloc()-beginAlloc.Load()) {
 				journal("T %d %s", curID.Load(), curEntry.Load().(string))
 				os.Exit(17)
 			}
@@ -171,9 +196,10 @@ func WorkerMain(args []string) {
 			journal("B %d %s", it.ID, e.name)
 			curID.Store(int64(it.ID))
 			curEntry.Store(e.name)
+			a0 := allocNow()
+			beginAlloc.Store(a0)
 			beginCPU.Store(uint64(cpuSeconds()*100) + 1)
 			outcome := ""
-			a0 := allocNow()
 			func() {
 				defer func() {
 					if p := recover(); p != nil {
@@ -295,6 +321,7 @@ func runBatchR(ctx *core.Ctx, mode, dir, tag string, items []WorkItem, profile b
 	remaining := items
 	attempt := 0
 	timeouts := map[int]int{}
+	extKills := map[int]int{}
 	fatals := 0
 	var allSites []AllocSite // accumulated over all attempts (a worker restart must not lose earlier sites)
 	for len(remaining) > 0 {
@@ -408,6 +435,18 @@ func runBatchR(ctx *core.Ctx, mode, dir, tag string, items []WorkItem, profile b
 			}
 			r.Timeout = true
 			r.Entry = openEntry
+		} else if externalKill(string(eb), runErr) && extKills[openID] < 2 {
+			// SIGKILL with nothing on stderr does not come from the code under test (the Go runtime reports its
+			// own fatal errors, the address-space cap included, before dying): the kernel's OOM killer or an
+			// operator ended the worker. Run the input again, up to twice.
+			extKills[openID]++
+			rep.Count("workers_killed_from_outside_and_rerun", 1)
+			delete(out, openID)
+			remaining = remaining[indexOfItem(remaining, openID):]
+			continue
+		} else if externalKill(string(eb), runErr) {
+			rep.Inconclusive(fmt.Sprintf("worker %s was killed from outside three times while running input %d in %s", tag, openID, openEntry))
+			delete(out, openID)
 		} else {
 			r.Fatal = fatalClass(string(eb), runErr)
 			r.Entry = openEntry
@@ -443,6 +482,10 @@ func tail(s string, n int) string {
 }
 
 // fatalClass extracts the runtime's fatal message (first "fatal error:" / "panic:" line, and the first frame of the code under test).
+func externalKill(stderr string, runErr error) bool {
+	return runErr != nil && runErr.Error() == "signal: killed" && !strings.Contains(stderr, "fatal error:") && !strings.Contains(stderr, "panic:") && !strings.Contains(stderr, "goroutine ")
+}
+
 func fatalClass(stderr string, runErr error) string {
 	class := runErr.Error()
 	lines := strings.Split(stderr, "\n")
